@@ -40,11 +40,23 @@ def R(name, opt=None, cli=None, probes=(), base=None, **kw):
 
 ROWS = [
     R("prefix", '%option prefix="zz"', ["-Pzz"],
-      [("sym", "zzlex"), ("sym", "zz_create_buffer"), ("sym", "zzrestart"), ("nosym_re", r"^yy(lex|restart|in|out|text|leng|_create_buffer|_switch_to_buffer|alloc|free|realloc|lineno|lex_destroy|_scan_string|get_text|set_in)$")],
+      [("sym", "zzlex"), ("sym", "zz_create_buffer"), ("sym", "zzrestart"), ("nosym_re", r"^yy")],
       base={"code": "int main(void) { return 0; }\n"}),
     R("prefix-reentrant", '%option prefix="zz" reentrant', ["-Pzz", "--reentrant"],
-      [("sym", "zzlex"), ("sym", "zzlex_init"), ("sym", "zzget_extra"), ("nosym_re", r"^yy(lex|lex_init|lex_destroy|get_extra|set_extra|alloc|free|restart|_scan_bytes)$")],
+      [("sym", "zzlex"), ("sym", "zzlex_init"), ("sym", "zzget_extra"), ("nosym_re", r"^yy")],
       base={"code": "int main(void) { return 0; }\n"}, without_opt="%option reentrant"),
+    R("prefix-bison", '%option prefix="zz" reentrant bison-bridge bison-locations',
+      ["-Pzz", "--reentrant", "--bison-bridge", "--bison-locations"],
+      [("sym", "zzlex"), ("sym", "zzget_lval"), ("sym", "zzset_lval"), ("sym", "zzget_lloc"),
+       ("sym", "zzset_lloc"), ("nosym_re", r"^yy")],
+      base={"top": "typedef int YYSTYPE; typedef struct { int first_line; } YYLTYPE;",
+            "code": "int main(void) { return 0; }\n"},
+      without_opt="%option reentrant bison-bridge bison-locations"),
+    R("prefix-long-tables", '%option prefix="calc_scanner_" tables-file="probe.tbl"',
+      ["-Pcalc_scanner_", "--tables-file=probe.tbl"],
+      [("file_has", "probe.tbl", b"calc_scanner_tables\0"), ("sym", "calc_scanner_tables_fload"),
+       ("nosym_re", r"^yy")],
+      base={"code": "int main(void) { return 0; }\n"}),
     R("main", "%option main", ["--main"], [("sym", "main")], base={"code": ""}),
     R("noyywrap", "%option noyywrap", None, [("links",)], base={"nowrap": False, "code": MAIN}),
     R("stack", "%option stack", ["--stack"], [("anysym", "yy_push_state"), ("anysym", "yy_pop_state")],
@@ -323,6 +335,9 @@ def probe(flex, b, p):
     if k == "file":
         fp = os.path.join(b.dir, p[1])
         return os.path.exists(fp) and os.path.getsize(fp) > 0
+    if k == "file_has":
+        fp = os.path.join(b.dir, p[1])
+        return os.path.exists(fp) and p[2] in util.read(fp, True)
     if k == "stdout_has":
         return p[1].encode() in b.stdout
     if k in ("header_ok", "header_ok_r", "header_ok_c99"):
